@@ -85,6 +85,14 @@ def r1(ctx: Ctx) -> None:
     for c in gv:
         ok = any(a is outer[0] for a in ancestors(c)) and not any(a is inner[0] for a in ancestors(c)) and src(c.args[0]) == f'{f.params[0]}.global_variables'
         ctx.check(ok, 'C10.R1', f, 'globals-per-merchant', 'global variables evaluated once per merchant from config.global_variables', f'{src(c)[:60]!r}', c)
+    # no argument lands in the wrong parameter of the view evaluators (period data in the slot of the inherited variables, say)
+    from ._rows import crossed_arguments
+    crossed = list(crossed_arguments(proj, ('section_engine', 'analyzer')))
+    for cf, cc, var, par in crossed:
+        ctx.fail('C10.R1', cf, f'crossed-argument:{var}', f'{src(cc)[:70]!r} passes `{var}` by position into the parameter `{par}` although the callee has a parameter `{var}`: '
+                 f'the value is taken for something else (a global that uses period() then falls back to its default, for instance)', cc)
+    if not crossed:
+        ctx.ok('C10.R1', f, 'every positional argument of the view evaluators lands in the parameter of its own name', construct='crossed-argument:none')
     # result initialised with every view, in file order
     init = [s for s in cfg.stmts() if isinstance(s, (ast.Assign, ast.AnnAssign)) and src(s.targets[0] if isinstance(s, ast.Assign) else s.target) == 'result']
     ok = bool(init) and isinstance(init[0].value, ast.DictComp) and src(init[0].value.generators[0].iter) == f'{f.params[0]}.sections' and not init[0].value.generators[0].ifs
